@@ -6,7 +6,7 @@ import (
 	"fmt"
 	"net"
 	"os"
-		"strconv"
+	"strconv"
 	"strings"
 	"sync"
 	"time"
@@ -225,7 +225,8 @@ func (r *staticResolver) Close() error { return nil }
 // ---------------------------------------------------------------- the gate
 
 type decision struct {
-	kind string // deliver | drop | lose | notleader | abort
+	kind  string           // deliver | drop | lose | notleader | epoch | abort
+	metas []*pb.RegionMeta // epoch: the regions the EpochNotMatch reply carries
 }
 
 type pendingRPC struct {
@@ -272,6 +273,17 @@ func (g *gate) intercept(ctx context.Context, method string, req, reply any, cc 
 			other = 2
 		}
 		re := &pb.RegionError{NotLeader: &pb.NotLeader{RegionId: rid, Leader: &pb.RegionPeer{StoreId: other, PeerId: rid*10 + other}}}
+		switch r := reply.(type) {
+		case *pb.KvPrewriteResponse:
+			r.RegionError = re
+		case *pb.KvCommitResponse:
+			r.RegionError = re
+		default:
+			return errInjected
+		}
+		return nil
+	case "epoch":
+		re := &pb.RegionError{EpochNotMatch: &pb.EpochNotMatch{Regions: d.metas}}
 		switch r := reply.(type) {
 		case *pb.KvPrewriteResponse:
 			r.RegionError = re
@@ -349,20 +361,35 @@ func classifyReply(reply any, err error) string {
 // ---------------------------------------------------------------- engine
 
 type twoPCEngine struct {
-	dir      string
-	db       *NoKV.DB
-	srv      *grpc.Server
-	svc      *kvService
-	addr     string
-	gate     *gate
-	txnCli   *client.Client
-	resCli   *client.Client
-	raw      pb.TinyKvClient
-	rawConn  *grpc.ClientConn
-	nsSeq    int
-	reruns   int
-	stuck    int
-	maxRerun int
+	dir       string
+	db        *NoKV.DB
+	srv       *grpc.Server
+	svc       *kvService
+	addr      string
+	gate      *gate
+	txnCli    *client.Client
+	resCli    *client.Client
+	raw       pb.TinyKvClient
+	rawConn   *grpc.ClientConn
+	nsSeq     int
+	reruns    int
+	stuck     int
+	maxRerun  int
+	topoDirty bool
+}
+
+func (e *twoPCEngine) newTxnClient() {
+	if e.txnCli != nil {
+		_ = e.txnCli.Close()
+	}
+	stores := []client.StoreEndpoint{{StoreID: 1, Addr: e.addr}, {StoreID: 2, Addr: e.addr}}
+	creds := grpc.WithTransportCredentials(insecure.NewCredentials())
+	cli, err := client.New(client.Config{Stores: stores, RegionResolver: &staticResolver{regionMetas()}, MaxRetries: 3,
+		DialOptions: []grpc.DialOption{creds, grpc.WithUnaryInterceptor(e.gate.intercept)}})
+	if err != nil {
+		panic(err)
+	}
+	e.txnCli = cli
 }
 
 func newTwoPCEngine() *twoPCEngine {
@@ -414,7 +441,7 @@ func (e *twoPCEngine) close() {
 }
 
 func (e *twoPCEngine) Rule() string {
-	return "C28: one transaction of 1-4 put/delete mutations over 1-3 regions (every primary choice and mutation order), optional older committed values / a foreign lock / a newer write on its keys; the real client's RPCs are delivered, dropped, answered after the reply is lost, answered NotLeader or re-delivered one by one, with CheckTxnStatus (current ts below/at/above lock expiry and commit version) and ResolveLocks of a second client, and the requests of other clients' transactions on the same keys (prewrite, commit, rollback, resolve, check-status; unique timestamps), interleaved at any point, client restarts with the same versions, then full resolution and a read of every key at the commit version; non-trivial = a fault or a resolver step happened before the client finished and the final observation is settled (no lock left) on a transaction with at least one put"
+	return "C28: one transaction of 1-4 put/delete mutations over 1-3 regions (every primary choice and mutation order), optional older committed values / a foreign lock / a newer write on its keys; the real client's RPCs are delivered, dropped, answered after the reply is lost, answered NotLeader or EpochNotMatch (epoch bump, split moving the RPC's keys to a new sibling region, merge into the neighbour) or re-delivered one by one, with CheckTxnStatus (current ts below/at/above lock expiry and commit version) and ResolveLocks of a second client, and the requests of other clients' transactions on the same keys (prewrite, commit, rollback, resolve, check-status; unique timestamps), interleaved at any point, client restarts with the same versions, then full resolution and a read of every key at the commit version; non-trivial = a fault or a resolver step happened before the client finished and the final observation is settled (no lock left) on a transaction with at least one put"
 }
 
 func (e *twoPCEngine) Extra() map[string]any {
@@ -434,16 +461,22 @@ type caseRun struct {
 	muts    []*pb.Mutation
 	keyIDs  []int
 
-	cancel   context.CancelFunc
-	resCh    chan error
-	pend     *pendingRPC
-	status   string // running | done | failed | none
-	idx      int
-	pcMax    int
-	reqLog   map[int]proto.Message
-	learned  string // "", "rolledback", "committed"
-	learnedV uint64
+	cancel           context.CancelFunc
+	resCh            chan error
+	pend             *pendingRPC
+	status           string // running | done | failed | none
+	idx              int
+	hist             []proto.Message // every RPC the client has sent, in order (re-sends of the same RPC once)
+	world            map[int]int     // key id -> region id as the cluster has it now
+	runReg           map[int]int     // key id -> region id as the current run of TwoPhaseCommit grouped it
+	stale            map[int]bool    // keys that left their region since the current run grouped them
+	topoDone         map[int]bool    // regions already split / merged away in this case
+	ver              map[int]uint64  // region id -> epoch version
+	learned          string          // "", "rolledback", "committed"
+	learnedV         uint64
 	live             bool
+	splitKey         map[int]string // region -> key it was split at
+	mergedInto       map[int]int    // region -> neighbour it was merged into
 	preSeen, comSeen []uint64
 	nonCanonical     bool
 }
@@ -517,7 +550,7 @@ func (c *caseRun) waitClient() {
 // phase for a non-primary region must be for the j-th such region (a NotLeader retry repeats one)
 func (c *caseRun) noteOrder(m proto.Message) {
 	rid, _ := regionOf(m)
-	pr := uint64(c.regions[c.primary])
+	pr := uint64(c.runReg[c.primary])
 	if rid == pr {
 		return
 	}
@@ -543,11 +576,11 @@ func (c *caseRun) noteOrder(m proto.Message) {
 // Go ranges over the `grouped` map in unspecified order; the model uses the order of first
 // appearance in the mutation list (the likeliest one for a small Go map, which keeps reruns rare).
 func (c *caseRun) otherRegions() []uint64 {
-	pr := c.regions[c.primary]
+	pr := c.runReg[c.primary]
 	seen := map[int]bool{}
 	var out []uint64
 	for _, k := range c.keyIDs {
-		if r := c.regions[k]; r != pr && !seen[r] {
+		if r := c.runReg[k]; r != pr && !seen[r] {
 			seen[r] = true
 			out = append(out, uint64(r))
 		}
@@ -562,6 +595,19 @@ func (c *caseRun) startClient() {
 	c.live = true
 	c.idx = 0
 	c.preSeen, c.comSeen = nil, nil
+	// the run groups the keys by the client's routing cache, which is up to date here: every
+	// topology change of a case reaches the client through an EpochNotMatch reply
+	if c.world == nil {
+		c.world, c.stale, c.topoDone, c.ver = map[int]int{}, map[int]bool{}, map[int]bool{}, map[int]uint64{}
+		for _, k := range c.keyIDs {
+			c.world[k] = c.regions[k]
+		}
+	}
+	c.runReg = map[int]int{}
+	for k, r := range c.world {
+		c.runReg[k] = r
+	}
+	c.stale = map[int]bool{}
 	muts := make([]*pb.Mutation, len(c.muts))
 	for i, m := range c.muts {
 		muts[i] = proto.Clone(m).(*pb.Mutation)
@@ -570,13 +616,69 @@ func (c *caseRun) startClient() {
 		c.resCh <- c.e.txnCli.TwoPhaseCommit(ctx, c.key(c.primary), muts, c.start, c.cv, c.ttl)
 	}()
 	c.waitClient()
-	c.logPending()
+	c.logPending(true)
 }
 
-func (c *caseRun) logPending() {
-	if c.pend != nil {
-		c.reqLog[c.idx] = c.pend.req
+// logPending appends the pending RPC to the history when it is a new one (not a re-send)
+func (c *caseRun) logPending(newRPC bool) {
+	if c.pend != nil && newRPC {
+		c.hist = append(c.hist, c.pend.req)
 	}
+}
+
+func (c *caseRun) pendingKeys() []int {
+	var ids []int
+	switch r := c.pend.req.(type) {
+	case *pb.KvPrewriteRequest:
+		for _, mu := range r.GetRequest().GetMutations() {
+			ids = append(ids, c.keyID(mu.GetKey()))
+		}
+	case *pb.KvCommitRequest:
+		for _, k := range r.GetRequest().GetKeys() {
+			ids = append(ids, c.keyID(k))
+		}
+	}
+	return ids
+}
+
+func (c *caseRun) pendingStale() bool {
+	for _, k := range c.pendingKeys() {
+		if c.stale[k] {
+			return true
+		}
+	}
+	return false
+}
+
+// regionMeta describes region `id` as the cluster has it now.  Original regions 1..3 own one
+// letter each; region 10+r is the sibling split off r at `splitKey[r]`; a merged-away region's
+// range belongs to its neighbour.
+func (c *caseRun) regionMeta(id int) *pb.RegionMeta {
+	bound := func(r int) (string, string) { return regionBounds[r-1][0], regionBounds[r-1][1] }
+	var start, end string
+	switch {
+	case id > 10:
+		_, e := bound(id - 10)
+		start, end = c.splitKey[id-10], e
+	default:
+		start, end = bound(id)
+		if k, ok := c.splitKey[id]; ok {
+			end = k
+		}
+		for from, to := range c.mergedInto {
+			if to == id {
+				fs, fe := bound(from)
+				if from < id {
+					start = fs
+				} else {
+					end = fe
+				}
+			}
+		}
+	}
+	uid := uint64(id)
+	return &pb.RegionMeta{Id: uid, StartKey: []byte(start), EndKey: []byte(end), EpochVersion: c.ver[id] + 1, EpochConfVersion: 1,
+		Peers: []*pb.RegionPeer{{StoreId: 1, PeerId: uid*10 + 1}, {StoreId: 2, PeerId: uid*10 + 2}}}
 }
 
 func (c *caseRun) act(kind string) string {
@@ -652,7 +754,13 @@ func (e *twoPCEngine) Exec(ops []string) []string {
 
 func (e *twoPCEngine) execOnce(ops []string) ([]string, bool) {
 	e.nsSeq++
-	c := &caseRun{e: e, ns: fmt.Sprintf("%06d", e.nsSeq), regions: map[int]int{}, status: "none", reqLog: map[int]proto.Message{}}
+	if e.topoDirty {
+		// a case with splits / merges left its regions in the client's routing cache
+		e.newTxnClient()
+		e.topoDirty = false
+	}
+	c := &caseRun{e: e, ns: fmt.Sprintf("%06d", e.nsSeq), regions: map[int]int{}, status: "none",
+		splitKey: map[int]string{}, mergedInto: map[int]int{}}
 	e.gate.mu.Lock()
 	e.gate.enabled = true
 	e.gate.pending = make(chan *pendingRPC, 4)
@@ -761,7 +869,7 @@ func (e *twoPCEngine) execOnce(ops []string) ([]string, bool) {
 			}
 			c.startClient()
 			out[i] = "ok st=" + c.status
-		case "deliver", "lose", "drop", "notleader":
+		case "deliver", "lose", "drop", "notleader", "epoch", "split", "merge":
 			if c.status == "none" {
 				out[i] = "no-txn"
 				break
@@ -771,23 +879,101 @@ func (e *twoPCEngine) execOnce(ops []string) ([]string, bool) {
 				break
 			}
 			desc := c.rpcDesc(c.pend.req)
-			res := c.act(toks[0])
 			was := c.idx
-			switch toks[0] {
-			case "drop":
-				res = "dropped"
-			case "notleader":
-				res = "notleader"
+			rid64, _ := regionOf(c.pend.req)
+			rg := int(rid64)
+			var res string
+			epochReply := func(ids ...int) {
+				var metas []*pb.RegionMeta
+				for _, id := range ids {
+					metas = append(metas, c.regionMeta(id))
+				}
+				p := c.pend
+				p.decide <- decision{kind: "epoch", metas: metas}
+				<-p.done
 			}
-			c.waitClient()
-			if toks[0] == "deliver" && (c.status == "running" || c.status == "done") {
-				// the client went on: next program index
-				c.idx = was + 1
-				if c.idx > c.pcMax {
-					c.pcMax = c.idx
+			current := func() []int { // the regions that now cover what `rg` covered
+				ids := []int{rg}
+				if _, ok := c.splitKey[rg]; ok {
+					ids = append(ids, 10+rg)
+				}
+				return ids
+			}
+			switch op := toks[0]; {
+			case (op == "deliver" || op == "lose") && c.pendingStale():
+				// the store refuses a request naming a key outside the region's range
+				epochReply(current()...)
+				res = "regionerr"
+			case op == "epoch":
+				c.ver[rg]++
+				epochReply(current()...)
+				res = "epoch"
+			case op == "split":
+				keys := c.pendingKeys()
+				if len(keys) == 0 || rg < 1 || rg > 3 || c.topoDone[rg] || c.pendingStale() {
+					c.ver[rg]++
+					epochReply(current()...)
+					res = "epoch"
+					break
+				}
+				kmin := keys[0]
+				for _, k := range keys {
+					if k < kmin {
+						kmin = k
+					}
+				}
+				c.splitKey[rg] = string(c.key(kmin))
+				for k, r := range c.world {
+					if r == rg && k >= kmin {
+						c.world[k] = 10 + rg
+						c.stale[k] = true
+					}
+				}
+				c.topoDone[rg] = true
+				c.ver[rg]++
+				e.topoDirty = true
+				epochReply(rg, 10+rg)
+				res = "split"
+			case op == "merge":
+				keys := c.pendingKeys()
+				tgt := rg - 1
+				if rg == 1 {
+					tgt = 2
+				}
+				if len(keys) == 0 || rg < 1 || rg > 3 || c.topoDone[rg] || c.topoDone[tgt] || c.pendingStale() {
+					c.ver[rg]++
+					epochReply(current()...)
+					res = "epoch"
+					break
+				}
+				c.mergedInto[rg] = tgt
+				for k, r := range c.world {
+					if r == rg {
+						c.world[k] = tgt
+					}
+				}
+				c.topoDone[rg] = true
+				c.ver[tgt]++
+				e.topoDirty = true
+				epochReply(tgt)
+				res = "merge"
+			default:
+				res = c.act(toks[0])
+				switch toks[0] {
+				case "drop":
+					res = "dropped"
+				case "notleader":
+					res = "notleader"
 				}
 			}
-			c.logPending()
+			c.waitClient()
+			advanced := false
+			if toks[0] == "deliver" && res != "regionerr" && (c.status == "running" || c.status == "done") {
+				// the client went on: next program index
+				c.idx = was + 1
+				advanced = true
+			}
+			c.logPending(advanced)
 			out[i] = desc + " " + res + " st=" + c.status
 		case "redeliver":
 			if c.status == "none" {
@@ -795,11 +981,11 @@ func (e *twoPCEngine) execOnce(ops []string) ([]string, bool) {
 				break
 			}
 			j := int(num(1))
-			m := c.reqLog[j]
-			if j > c.pcMax || m == nil {
+			if j >= len(c.hist) {
 				out[i] = "none st=" + c.status
 				break
 			}
+			m := c.hist[j]
 			out[i] = c.rpcDesc(m) + " " + c.direct(m) + " st=" + c.status
 		case "restart":
 			if c.status == "none" {
@@ -985,7 +1171,7 @@ func (e *twoPCEngine) Nontrivial(ops, impl, model, spec []string) bool {
 		case "txn":
 			running = strings.HasSuffix(impl[i], "st=running")
 			hasPut = strings.Contains(op, ":p:")
-		case "drop", "lose", "notleader", "redeliver", "check", "resolve", "restart", "foreign", "foreignabort", "foreigncommit", "foreignresolve", "foreigncheck":
+		case "drop", "lose", "notleader", "epoch", "split", "merge", "redeliver", "check", "resolve", "restart", "foreign", "foreignabort", "foreigncommit", "foreignresolve", "foreigncheck":
 			if running {
 				fault = true
 			}
@@ -1089,7 +1275,7 @@ func (e *twoPCEngine) Gen(r *hlib.Rand, tier string) []string {
 	// the protocol has at most 2+2+... RPCs; fault position uniform over them
 	maxRPC := 2*nReg + 2
 	faultAt := r.Intn(maxRPC + 1)
-	faultKind := hlib.Pick(r, []string{"drop", "lose", "notleader", "none", "check", "check"})
+	faultKind := hlib.Pick(r, []string{"drop", "lose", "notleader", "none", "check", "check", "topo", "topo"})
 	steps := 0
 	// other clients' transactions: unused, unique (start, commit) timestamp pairs; each of them
 	// prewrites one of our keys and later commits, gives up, checks its status or gets resolved
@@ -1155,10 +1341,16 @@ func (e *twoPCEngine) Gen(r *hlib.Rand, tier string) []string {
 				if r.Chance(50) {
 					ops = append(ops, "resolve "+someKeys())
 				}
+			case "topo":
+				// the region of the pending RPC changes between two RPCs (any phase boundary)
+				ops = append(ops, hlib.Pick(r, []string{"split", "split", "epoch", "merge"}))
 			}
 		}
 		if r.Chance(15) {
 			env()
+		}
+		if r.Chance(4) {
+			ops = append(ops, hlib.Pick(r, []string{"split", "epoch", "merge"}))
 		}
 		ops = append(ops, "deliver")
 		steps++
